@@ -83,6 +83,9 @@ def _ndarray_to_bytes(arr):
   if arr.dtype.hasobject or arr.dtype.isalignedstruct:
     raise ValueError('Object and structured dtypes not supported '
                      'for serialization of ndarrays.')
+  if not arr.dtype.isnative:
+    # dtype.name does not record the byte order, so the bytes must be native.
+    arr = arr.astype(arr.dtype.newbyteorder('='))
   tpl = (arr.shape, arr.dtype.name, arr.tobytes('C'))
   return msgpack.packb(tpl, use_bin_type=True)
 
